@@ -89,6 +89,11 @@ def execute_run(mod, seed: int, run_index: int, tier: str, values=None, keep_tap
         ctx.violations.clear()
     res["violations"] = [v.as_dict() for v in ctx.violations]
     res["digest"] = ctx.digest()
+    if ctx.probes.get("real_worker_processes_outside_the_simulator"):
+        # gemseo's own forked workers (parallel MultiStart) are real processes: which of them takes which task is the
+        # kernel's choice, and what a task records depends on it (seen at high load: 4 runs out of 32). The verdict
+        # of such a run stands; its event log is not compared between executions.
+        res["digest"] = "unscheduled-real-workers"
     res["fired"] = dict(ctx.fired)
     res["probes"] = dict(ctx.probes)
     res["case_key"] = ctx.case_key
